@@ -2,7 +2,7 @@
    elementwise operations (arithmetic, comparison, unary) in all option modes.
    Elements are small integers, on which every modelled scalar operation is exact in every
    numeric element type; element-type specific arithmetic is the subject of C17. *)
-From TV Require Import Base Index AP Iter Mem Spec Guards Run Ops Reduce Shapeops.
+From TV Require Import Base Index AP Iter Mem Spec Guards Run Ops Reduce Shapeops Linalg.
 
 (* scalar operations by code *)
 Definition zbin (code : Z) (x y : Z) : cres Z :=
@@ -42,7 +42,10 @@ Inductive zop :=
 | ZArg (code : Z) (a : nat) (axis : Z) (refused : bool)             (* 0 argmax, 1 argmin; axis -1 = all *)
 | ZStack (t : nat) (axis : Z) (others : list nat)
 | ZConcat (t : nat) (axis : Z) (others : list nat)
-| ZRepeat (t : nat) (axis : Z) (reps : list Z).
+| ZRepeat (t : nat) (axis : Z) (reps : list Z)
+| ZLin (code : Z) (a b : nat) (m : lmode) (refused : Z)   (* 0 matmul, 1 matvec, 2 outer; refused: 0 no, 1 err, 2 panic *)
+| ZInner (a b : nat) (refused : Z)
+| ZTrace (a : nat) (refused : Z).
 
 Definition zred (code : Z) : Z -> Z -> Z :=
   if code =? 0 then Z.add else if code =? 1 then Z.min else Z.max.
@@ -102,6 +105,24 @@ Definition zstep_model (σ : store Z) (o : zop) : store Z * outcome Z :=
     match m_repeat Z 0 σ t axis reps with
     | Ok (σ', d) => let '(σ'', t') := add_t Z σ' d in (σ'', RNew Z t')
     | Err => (σ, RErr Z) | Panic => (σ, RPanic Z)
+    end
+  | ZLin code a b m _ =>
+    let r := if code =? 0 then m_matmul Z 0 Z.add Z.mul σ a b m
+             else if code =? 1 then m_matvec Z 0 Z.add Z.mul σ a b m
+             else m_outer Z 0 Z.add Z.mul σ a b m in
+    match r with
+    | (σ', LNew d) => let '(σ'', t') := add_t Z σ' d in (σ'', RNew Z t')
+    | (σ', LSame t) => (σ', RNew Z t)
+    | (σ', LErr) => (σ', RErr Z)
+    | (σ', LPanic) => (σ', RPanic Z)
+    end
+  | ZInner a b _ =>
+    match m_inner Z 0 Z.add Z.mul σ a b with
+    | Ok v => (σ, RVal Z v) | Err => (σ, RErr Z) | Panic => (σ, RPanic Z)
+    end
+  | ZTrace a _ =>
+    match m_trace Z 0 Z.add σ a with
+    | Ok v => (σ, RVal Z v) | Err => (σ, RErr Z) | Panic => (σ, RPanic Z)
     end
   end.
 
@@ -215,6 +236,46 @@ Definition zstep_spec (ς : sstate Z) (o : zop) : option (sstate Z * outcome Z) 
     | Some (sh, vs) => spec_vals_deliver ς t sh (map (fun v => Some v) vs) (0, O) false
     | None => Some (ς, RErr Z)
     end
+  | ZLin code a b m refused =>
+    (* "any combination that is not supported is refused loudly": an error or a panic *)
+    if refused =? 1 then Some (ς, RErr Z) else if refused =? 2 then Some (ς, RPanic Z) else
+    match sget Z ς a, sget Z ς b with
+    | Some x, Some y =>
+      let r := if code =? 0 then spec_matmul_vals Z 0 Z.add Z.mul ς x y
+               else if code =? 1 then spec_matvec_vals Z 0 Z.add Z.mul ς x y
+               else spec_outer_vals Z 0 Z.mul ς x y in
+      match r with
+      | None => Some (ς, RErr Z)
+      | Some (sh, vs) =>
+        let mc := match m with LSafe => (0, O) | LReuse r => (2, r) | LIncr r => (3, r) end in
+        (* a reuse tensor is reshaped to the documented result shape; an incr tensor keeps its own *)
+        match spec_deliver_gen Z 0 (match m with LReuse _ => false | _ => true end) Z.add ς a sh vs (fst mc) (snd mc) (s_cm x) with
+        | Some (ς', t) => Some (ς', RNew Z t)
+        | None => None
+        end
+      end
+    | _, _ => None
+    end
+  | ZInner a b refused =>
+    if refused =? 1 then Some (ς, RErr Z) else if refused =? 2 then Some (ς, RPanic Z) else
+    match sget Z ς a, sget Z ς b with
+    | Some x, Some y =>
+      match spec_inner_val Z 0 Z.add Z.mul ς x y with
+      | Some v => Some (ς, RVal Z v)
+      | None => Some (ς, RErr Z)
+      end
+    | _, _ => None
+    end
+  | ZTrace a refused =>
+    if refused =? 1 then Some (ς, RErr Z) else if refused =? 2 then Some (ς, RPanic Z) else
+    match sget Z ς a with
+    | Some x =>
+      match spec_trace_val Z 0 Z.add ς x with
+      | Some v => Some (ς, RVal Z v)
+      | None => Some (ς, RErr Z)
+      end
+    | None => None
+    end
   | ZRepeat t axis reps =>
     match sget Z ς t with
     | None => None
@@ -297,6 +358,27 @@ Definition zguard (σ : store Z) (o : zop) : gclass :=
                    if negb (forallb (fun d => list_eqb (shp (d_ap d)) (shp (d_ap d0))) ds) then GShapeMisfit else GOk
                  | _, _ => GOk
                  end
+    end
+  | ZLin _ a b m _ =>
+    let ds := tens [a; b] in
+    let dst := match m with LReuse r | LIncr r => tens [r] | LSafe => [] end in
+    match filter (fun d => match guard_read d with GOk => false | _ => true end) (ds ++ dst) with
+    | d :: _ => guard_read d
+    | [] => if existsb (fun d => d_view d || is_nc (ord (d_ap d))) (ds ++ dst) then GView
+            else if existsb (fun d => is_cm (ord (d_ap d))) (ds ++ dst) then GOrderMix
+            else GOk
+    end
+  | ZInner a b _ =>
+    match filter (fun d => match guard_read d with GOk => false | _ => true end) (tens [a; b]) with
+    | d :: _ => guard_read d
+    | [] => if existsb (fun d => d_view d || is_nc (ord (d_ap d)) || is_some (d_old d)) (tens [a; b]) then GView else GOk
+    end
+  | ZTrace a _ =>
+    match tens [a] with
+    | d :: _ => match guard_read d with
+                | GOk => if d_view d then GView else GOk
+                | g => g end
+    | [] => GOther
     end
   | ZRepeat t axis reps =>
     match tens [t] with
